@@ -11,17 +11,18 @@ from .common import V, judge_flags, run_cases
 PROP = "C13"
 RHO = (0.0, 1.0, 2.0, alpha.NAN)
 STEPS = (1.0, 0.0, -1.0)
-THR = (None, -2.0, -1.0, -0.5, 0.5)
-THR_SMALL = (None, -1.0, 0.5)
+THR = (None, -2.0, -1.0, -0.5, 0.0, 0.5)
+THR_SMALL = (None, -1.0, 0.0, 0.5)
+THR_MISS = (None, -1.0, 0.0)
 NMAX = {"quick": 4, "thorough": 5}
 PMAX = {"quick": 6, "thorough": 8}
 BUDGET = {"quick": 600, "thorough": 3000}
 
 META = dict(
     rule="density_inversion_test: every density series of length 1..N over {0,1,2,NaN} x every depth profile built "
-         "from steps {+1,0,-1} (down, up, down-up, stationary, repeated depths) x all 25 (suspect,fail) pairs over "
-         "{None,-2,-1,-.5,.5} (differences land exactly on -1,-2), and x every placement of one or two missing depths "
-         "with 9 threshold pairs; pressure_increasing_test: every series of length 0..P over {0,1,2,3} as ndarray and "
+         "from steps {+1,0,-1} (down, up, down-up, stationary, repeated depths) x all 36 (quick: 16 at the longest length) (suspect,fail) pairs over "
+         "{None,-2,-1,-.5,0,.5} (differences land exactly on -1,-2), and x every placement of one or two missing depths "
+         "with 16 threshold pairs; pressure_increasing_test: every series of length 0..P over {0,1,2,3} as ndarray and "
          "list. Each state = one real call judged per point by the scalar reference (pair rule; both members of the "
          "pair; the reference is mirror-symmetric, so agreement on a profile and on its reverse - both are in the "
          "space - is the upcast/downcast relation). non-trivial = reference demands SUSPECT/FAIL/MISSING/UNKNOWN",
@@ -44,7 +45,7 @@ def tasks(tier):
     ts = []
     for k in range(1, n + 1):
         for pre in itertools.product(RHO, repeat=min(2, k)):
-            ts.append(("dens", k, list(pre)))
+            ts.append(("dens", k, list(pre), tier))
     for k in range(0, PMAX[tier] + 1):
         ts.append(("press", k))
     return ts
@@ -81,22 +82,28 @@ def replay(case):
     return check_case(case)[0]
 
 
+FULL4 = False
+
+
 def run_task(task, acc):
+    global FULL4
     if task[0] == "dens":
-        _, n, first = task
+        _, n, first = task[:3]
+        FULL4 = len(task) > 3 and task[3] == "thorough"
 
         def gen():
             for rest in itertools.product(RHO, repeat=n - len(first)):
                 rho = [*first, *rest]
                 for z in depth_profiles(n):
-                    for s in THR:
-                        for f in THR:
+                    thr = THR if (n <= 3 or FULL4) else THR_SMALL
+                    for s in thr:
+                        for f in thr:
                             yield dict(fn="density", rho=rho, z=z, suspect=s, fail=f)
                     for k in (1, 2):
                         for miss in itertools.combinations(range(n), k):
                             zz = [alpha.NAN if i in miss else v for i, v in enumerate(z)]
-                            for s in THR_SMALL:
-                                for f in THR_SMALL:
+                            for s in (THR_SMALL if (n <= 3 or FULL4) else THR_MISS):
+                                for f in (THR_SMALL if (n <= 3 or FULL4) else THR_MISS):
                                     yield dict(fn="density", rho=rho, z=zz, suspect=s, fail=f)
         run_cases(acc, gen(), check_case)
     else:
